@@ -109,8 +109,43 @@ def _unmasked(chk):
     chk.require(n_obl >= 1, "GUARD.features.unmasked: no stage before the sanitizer combines the data with a fitted statistic (anchor vanished)")
 
 
+def _items_share_samples(chk):
+    """GUARD.isolated.items - a NaN that is neither an entirely missing feature nor an entirely missing sample is refused.
+    For a list input each item is sanitised on its own: a sample that is entirely missing in ONE item only is dropped
+    from that item, and ``xr.concat`` along the feature dimension (outer join on the sample labels) brings it back as a
+    row of NaN in that item's block - an isolated NaN nobody looks at any more.  The concatenator must therefore refuse
+    items whose sample labels differ (a raise guarded by a comparison of the items' sample indexes), or join exactly."""
+    pm = chk.pm
+    co = pm.cls("xeofs.preprocessing.concatenator.Concatenator")
+    tr = co.methods.get("transform")
+    chk.require(tr is not None, "Concatenator.transform vanished")
+    from .common import class_closure, effective_guards, inline_locals
+    cats = [(g, c) for g in class_closure(pm, co, tr) for c in calls_in(g) if (dotted(c.func) or "").split(".")[-1] in ("concat", "merge", "combine_by_coords", "align")]
+    chk.require(len(cats) >= 1, "Concatenator.transform: the concatenation call vanished")
+    exact = any(const_str(call_kwargs(c).get("join")) == "exact" for _, c in cats)
+    guarded = False
+    for g in class_closure(pm, co, tr):
+        gf = FuncFacts.of(g)
+        for r in [x for x in walk_no_nested(g.node) if isinstance(x, ast.Raise)]:
+            for t, pol, _ in effective_guards(gf, r):
+                tt = inline_locals(gf, t)
+                names = {norm(x) for x in ast.walk(tt) if isinstance(x, ast.Attribute)}
+                if any(n == "self.sample_name" for n in names) or any("sample_name" in norm(x) for x in ast.walk(tt) if isinstance(x, ast.Subscript)):
+                    guarded = True
+                else:
+                    # the compared values may be locals bound to <item>.indexes[self.sample_name] / .coords[...]
+                    for nm in [x for x in ast.walk(t) if isinstance(x, ast.Name)]:
+                        for p in gf.paths(nm, spine_only=False):
+                            if any(o.kind == "subscript" and "sample_name" in o.name for o in p.ops):
+                                guarded = True
+    chk.check(exact or guarded, "GUARD.isolated.items", tr, cats[0][1], construct="list items are refused unless they hold the same samples",
+              why="the items of a list are concatenated with an outer join on their sample labels and nothing compares those labels first: a sample that is entirely missing in one "
+                  "item only comes back as a row of NaN in that item's block and transform returns NaN scores instead of refusing the data")
+
+
 def check(chk):
     _unmasked(chk)
+    _items_share_samples(chk)
     # the per-item sample deletions of a list input are reconciled by LABEL when the items are concatenated (shared with C02's concatenator rule)
     from . import c02 as _c02
     from .c01 import _Relabel as _RL
@@ -189,7 +224,7 @@ def check(chk):
         for t, pol, kind, raw in egs[-1:]:
             ks, attrs, ops = kinds_of_paths(cpaths(g, raw.test))
             if "valid_features" in ks and "self.is_valid_feature" in attrs:
-                if {"equals", "identical"} & ops:
+                if {"equals", "identical", "array_equal", "array_equiv"} & ops:
                     # raise when NOT equal
                     if not pol:
                         mask_raise = (g, r)
